@@ -44,7 +44,7 @@ def build(S, tier, seed):
               loops={trashdirs.VOLUME_OF_LOOP: trashdirs.volume_of_loop_annot(),
                      dates.PARSE_LOOP: dates.parse_loop_annot(),
                      purge.PARSE_PATH_LOOP: purge.parse_path_loop_annot()})
-    c03.build(S, tier, seed)
+    c03.build(S, tier, seed, with_readers=False)
     put.leaf_vcs(S)
     purge.leaf_vcs(S)
     readers.list_reader_vc(S)
